@@ -164,7 +164,7 @@ static int step(int e)
             r = nc_sdo_write((uint16_t)(0x1800 + TB), 5, v * MSPT, 2);
             if (r == 0) { t->evt_cfg = v;
                 if (t->active) {      /* the event time is re-timed from the write; a running inhibit time is ended by it and a waiting transmission is sent */
-                    t->evt = v; t->ev_rem = v; t->inh_rem = 0;
+                    t->evt = t->type >= 254 ? v : 0; t->ev_rem = t->evt; t->inh_rem = 0;      /* an event time belongs to the event-driven types: a synchronous TPDO is not sent by a timer */
                     if (t->pending) { t->pending = 0; transmit(0); }
                 } }
         }
